@@ -37,7 +37,7 @@ Ints(s) == {RI(n) : n \in s}
 Lt(a, b) == ~RLeq(b, a)
 \* ------------------------------------------------------------------------------------------------ the table
 \* <<example id, flag, form, parameter candidates>>;   flag: tight | upper | lower;   form: rat | own
-Ls == {One, Two}
+Ls == {Half, One, Two}
 Table == <<
  <<"adaptive/polyak_steps_in_distance_to_optimum", "tight", "rat", << <<"L", {One}>>, <<"mu", {R(1, 10), Half}>>, <<"gamma", {Half, One, R(3, 2), Two, R(5, 1)}>> >> >>,
  <<"adaptive/polyak_steps_in_function_value", "tight", "rat", << <<"L", {One}>>, <<"mu", {R(1, 10), Half}>>, <<"gamma", {Half, One, R(5, 4), R(3, 2), R(19, 10)}>> >> >>,
@@ -72,7 +72,7 @@ Table == <<
  <<"monotone/douglas_rachford_splitting", "tight", "own", << <<"L", {One, Half}>>, <<"mu", {R(1, 10), One}>>, <<"alpha", {Half, R(13, 10)}>>, <<"theta", {Half, R(9, 10), R(3, 2)}>> >> >>,
  <<"monotone/optimal_strongly_monotone_proximal_point", "tight", "rat", << <<"n", Ints({1, 2, 4})>>, <<"mu", {Z, R(1, 20), Half, Two}>> >> >>,
  <<"monotone/proximal_point", "tight", "rat", << <<"alpha", {Half, R(11, 5)}>>, <<"n", Ints({1, 2, 5})>> >> >>,
- <<"nonconvex/gradient_descent", "upper", "rat", << <<"L", Ls>>, <<"gamma", {R(1, 4), Half, One}>>, <<"n", Ints({1, 2, 5})>> >> >>,
+ <<"nonconvex/gradient_descent", "upper", "rat", << <<"L", Ls>>, <<"gamma", {R(1, 4), Half, One, Two}>>, <<"n", Ints({1, 2, 5})>> >> >>,
  <<"nonconvex/no_lips_1", "tight", "rat", << <<"L", {One, Two}>>, <<"gamma", {R(1, 4), Half}>>, <<"n", Ints({1, 3})>> >> >>,
  <<"nonconvex/no_lips_2", "tight", "rat", << <<"L", {One, Two}>>, <<"gamma", {R(1, 4), Half}>>, <<"n", Ints({1, 3})>> >> >>,
  <<"potential/accelerated_gradient_method", "upper", "rat", << <<"L", Ls>>, <<"gamma", {Half, One}>>, <<"lam", {Z, One, R(10, 1)}>> >> >>,
